@@ -564,6 +564,12 @@ def fallthrough(prog, floor=90):
             for name, (ids, cns) in cs.items():
                 arms.setdefault(frozenset(ids), []).append((name, cns[0]))
             blocks_of = {ids: _arm_blocks(fn, ids) for ids in arms}
+            # empty blocks that only carry one of the arm's stacked case labels belong to the arm
+            for ids, names in arms.items():
+                lab = {cn_['i'] for nm_, cn_ in names}
+                for b_, bb_ in fn.blocks.items():
+                    if bb_.get('label') in lab:
+                        blocks_of[ids].add(b_)
             bad = 0
             for ids, names in sorted(arms.items(), key=lambda kv: kv[1][0][1]['l']):
                 if not ids:
@@ -578,6 +584,21 @@ def fallthrough(prog, floor=90):
                                 continue
                             ents = _entries(fn, blocks_of[ids2])
                             if s_ in ents and names2[0][1]['l'] > names[0][1]['l']:
+                                # an arm that only filters (tests and `continue`, no call, no return of its own) and then
+                                # shares the statements of the next arm is one arm with a guard, not a missing break
+                                does = False
+                                for i_ in ids:
+                                    x_ = fn.nodes.get(i_)
+                                    if x_ is not None and (x_['k'] in ('CallExpr', 'CXXMemberCallExpr') or
+                                                           (x_['k'] == 'ReturnStmt' and kids(x_) and
+                                                            not (const(kids(x_)[0]) is not None and const(kids(x_)[0]) < 0))):
+                                        does = True
+                                if not does:
+                                    obs.append(Ob('CASE-FALLTHROUGH', fn.file, names[0][1]['l'], fn.q,
+                                                  '%s:%s->%s' % (_table(txt), names[0][0], names2[0][0]), DISCHARGED, '',
+                                                  'the arm of %s only filters rows (no call, no return of its own) before sharing the '
+                                                  'statements of %s' % (names[0][0], names2[0][0]), False))
+                                    continue
                                 if fn.key not in facache:
                                     facache[fn.key] = FnIntervals(an, fn)
                                 why = _edge_refuted(prog, fn, facache[fn.key], mine, b, s_, _table(txt), txt.split('.')[-1],
